@@ -12,4 +12,6 @@ THEOREMS = [P + n for n in (
     "mirror_array_insert", "mirror_array_remove", "mirror_array_slice", "mirror_bitops", "mirror_buffer_fill_popn",
     "mirror_buffer_blit", "boot_each_family", "boot_map2", "boot_find_index_family", "boot_take_drop", "boot_extreme",
     "mirror_tuple_join", "mirror_array_concat", "mirror_buffer_push", "mirror_buffer_push_at", "boot_more", "mirror_replace", "boot_partition_distinct", "mirror_map3_fill_frombytes",
+    # session 4
+    "boot_map_template", "boot_interleave", "boot_interpose", "boot_frequencies_group_by", "boot_sort_wrappers",
 )]
